@@ -20,7 +20,7 @@ def parse_line(line):
     for call in parts["adds"].split("|"):
         adds.append([(int(g), int(b)) for g, b in (e.split(":") for e in call.split(",") if e)])
     probes = [(int(g), int(b)) for g, b in (e.split(":") for e in parts["probes"].split(";") if e)]
-    return {"adds": adds, "probes": probes, "res": parts["res"], "addres": parts["addres"], "raw": line}
+    return {"adds": adds, "probes": probes, "res": parts["res"], "addres": parts["addres"], "resb": parts.get("resb"), "raw": line}
 
 
 def coq_case(c):
@@ -144,6 +144,7 @@ def run(chk):
             chk.broken.append("model evaluation failed: %s" % str(e)[-1500:])
     disagreements = []
     oracle_fail = []
+    builder_fail = []
     hist = Counter()
     nontrivial = set()
     probes_total = 0
@@ -163,6 +164,10 @@ def run(chk):
         sp = spec_oracle(c)
         if sp != impl:
             oracle_fail.append(i)
+        # the by-value builder route must configure the same table as the add_constraints route
+        implb = None if c.get("resb") == "X" else c.get("resb")
+        if c.get("resb") is not None and sp != implb and i not in oracle_fail:
+            builder_fail.append(i)
     chk.coverage.update({
         "evaluations": len(cases),
         "probes_compared": probes_total,
@@ -233,6 +238,29 @@ def run(chk):
         import traceback
         chk.broken.append("C20T stage failed: %s" % traceback.format_exc()[-1500:])
         chk.coverage.update(own_cov)
+
+    chk.coverage["builder_route_failures"] = len(builder_fail)
+    if builder_fail:
+        c = cases[builder_fail[0]]
+
+        def failsb(cc):
+            r = run_impl_on(cc)
+            if r is None:
+                return False
+            rb = None if r.get("resb") == "X" else r.get("resb")
+            return spec_oracle(cc) != rb
+        small = shrink(c, failsb)
+        r = run_impl_on(small)
+        chk.violation("C20:builder-route-differs-from-spec",
+                      "a table configured through the by-value builder SpatioTemporalConstraints::constraints(..) chain does not apply "
+                      "'first limit configured for the least configured gap >= delta' over ALL configured entries",
+                      {"input": replay_text(small),
+                       "decoded": {"adds": [[(g, float(f32_bits_to_fraction(b))) for g, b in call] for call in small["adds"]],
+                                   "probes": [(g, float(f32_bits_to_fraction(b))) for g, b in small["probes"]]},
+                       "builder_route": r.get("resb") if r else None, "add_constraints_route": r.get("res") if r else None,
+                       "expected": spec_oracle(small),
+                       "replay_cmd": "printf '%s\\n' '" + replay_text(small) + "' > /tmp/c20.txt && /verif/.cache/target/release/constraints replay --file /tmp/c20.txt",
+                       "broken": chk.broken})
 
     # ---- verdict -----------------------------------------------------------------------------
     if oracle_fail:
